@@ -106,7 +106,8 @@ def _structure_returns(stmts, var):
 
 def _single_exit(fn):
     body = [s for s in fn.body if not (isinstance(s, ast.Expr) and isinstance(s.value, ast.Constant))]
-    rets = [x for x in ast.walk(fn) if isinstance(x, ast.Return)]
+    inner_nodes = {id(y) for x in ast.walk(fn) if x is not fn and isinstance(x, (ast.FunctionDef, ast.Lambda)) for y in ast.walk(x) if y is not x}
+    rets = [x for x in ast.walk(fn) if isinstance(x, ast.Return) and id(x) not in inner_nodes]
     if len(rets) > 1 or (rets and (not body or body[-1] is not rets[0])):
         # guard clauses / early returns: try to bring the body into single-exit form
         if any(isinstance(x, (ast.FunctionDef, ast.AsyncFunctionDef, ast.Lambda, ast.Yield, ast.YieldFrom, ast.Global, ast.Nonlocal, ast.Try, ast.With))
@@ -136,10 +137,41 @@ def _single_exit(fn):
             ast.fix_missing_locations(x)
         return new
     for x in ast.walk(fn):
-        if x is not fn and isinstance(x, (ast.FunctionDef, ast.AsyncFunctionDef, ast.Lambda, ast.Yield, ast.YieldFrom, ast.Global, ast.Nonlocal,
-                                          ast.Try, ast.With)):
+        if x is not fn and isinstance(x, (ast.AsyncFunctionDef, ast.Yield, ast.YieldFrom, ast.Global, ast.Nonlocal, ast.Try, ast.With)):
+            return None
+        if x is not fn and isinstance(x, (ast.FunctionDef, ast.Lambda)) and not _closed_nested(fn, x):
             return None
     return body
+
+
+def _closed_nested(fn, inner):
+    """a nested def / lambda that reads none of the helper's locals or parameters and shares no name with them (it can be moved with
+    the body unchanged)"""
+    a_ = fn.args
+    outer = {x.arg for x in a_.posonlyargs + a_.args + a_.kwonlyargs}
+    for x in ast.walk(fn):
+        if isinstance(x, ast.Name) and isinstance(x.ctx, (ast.Store, ast.Del)):
+            inside = any(y is x for y in ast.walk(inner))
+            if not inside:
+                outer.add(x.id)
+    ia = inner.args
+    own = {x.arg for x in ia.posonlyargs + ia.args + ia.kwonlyargs}
+    body_nodes = inner.body if isinstance(inner.body, list) else [inner.body]
+    for st in body_nodes:
+        for x in ast.walk(st):
+            if isinstance(x, ast.Name) and isinstance(x.ctx, (ast.Store, ast.Del)):
+                own.add(x.id)
+            if isinstance(x, ast.comprehension):
+                for t in ast.walk(x.target):
+                    if isinstance(t, ast.Name):
+                        own.add(t.id)
+    if own & outer:
+        return False
+    for st in body_nodes:
+        for x in ast.walk(st):
+            if isinstance(x, ast.Name) and isinstance(x.ctx, ast.Load) and x.id in outer:
+                return False
+    return True
 
 
 def _as_expression(fn):
@@ -204,6 +236,12 @@ class _Subst(ast.NodeTransformer):
             return ast.copy_location(_clone(self.exprs[node.id]), node)
         if node.id in self.names:
             return ast.copy_location(ast.Name(id=self.names[node.id], ctx=node.ctx), node)
+        return node
+
+    def visit_FunctionDef(self, node):
+        self.generic_visit(node)
+        if node.name in self.names:
+            node.name = self.names[node.name]
         return node
 
 
@@ -380,8 +418,12 @@ def _try_inline(caller, st, cands, counter):
     call = None
     holder = None          # (container call, arg index) when the helper call is a leading argument of the statement's call
     def is_helper_call(c):
-        return isinstance(c, ast.Call) and isinstance(c.func, ast.Attribute) and isinstance(c.func.value, ast.Name) \
-            and c.func.value.id == caller.self_name and c.func.attr in cands
+        if not (isinstance(c, ast.Call) and isinstance(c.func, ast.Attribute) and isinstance(c.func.value, ast.Name) and c.func.attr in cands):
+            return False
+        if c.func.value.id == caller.self_name:
+            return True
+        h_ = cands[c.func.attr][0]
+        return h_.is_static and caller.cls is not None and c.func.value.id in {k.name for k in caller.cls.mro}
     if is_helper_call(val):
         call = val
     elif isinstance(val, ast.Call) and all(isinstance(x, (ast.Name, ast.Attribute, ast.Load)) for x in ast.walk(val.func)):
@@ -400,6 +442,14 @@ def _try_inline(caller, st, cands, counter):
     counter[0] += 1
     tag = "__%s%d" % (helper.name.lstrip("_"), counter[0])
     stored = {x.id for x in ast.walk(helper.node) if isinstance(x, ast.Name) and isinstance(x.ctx, (ast.Store, ast.Del))}
+    stored |= {x.name for x in ast.walk(helper.node) if isinstance(x, ast.FunctionDef) and x is not helper.node}
+    for x in ast.walk(helper.node):
+        if isinstance(x, (ast.FunctionDef, ast.Lambda)) and x is not helper.node:
+            ia = x.args
+            inner_own = {y.arg for y in ia.posonlyargs + ia.args + ia.kwonlyargs}
+            for b_ in (x.body if isinstance(x.body, list) else [x.body]):
+                inner_own |= {y.id for y in ast.walk(b_) if isinstance(y, ast.Name) and isinstance(y.ctx, (ast.Store, ast.Del))}
+            stored -= inner_own
     for x in ast.walk(helper.node):
         if isinstance(x, ast.comprehension):
             for t in ast.walk(x.target):
